@@ -245,6 +245,8 @@ def run():
                     wcases.append((b, wo2))
         # ---- (d) API: documents created by the library, unedited saves
         api_docs(ck, thorough)
+        # ---- (e) API: documents edited through the layer API, then saved
+        edited_api_docs(ck, thorough, wcases)
     ck.count("write-calls-audited", audit.calls)
     seen = set()
     for cls, rep, emitted in audit.bad:
@@ -270,7 +272,8 @@ def run():
         "the 8-byte-length key table of the walker is the specification's list plus the keys observed in Photoshop CC PSB files",
         "scope = documents whose parts are coherent (Psd.Model.wf_psd without the two reader-side guards of C01): a structure whose counts "
         "contradict its lists is not something a writer can make consistent",
-        "API saves after an edit (plane count of the merged image) belong to C17",
+        "API saves after an edit: walked here too (length fields, section sums, image data sized from the header); the classes in which the "
+        "unchanged tree writes a wrong plane count (no alpha channel / CMYK / 16-32 bit: F-C17-1..3) are excused as F-C03-1..3 and only those",
     ]
     return ck.finish()
 
@@ -331,6 +334,241 @@ def api_docs(ck, thorough):
             ck.fail("walker-rejects-api-resave", {"fixture": os.path.basename(p)}, info, "walkable file")
 
 
+# ----------------------------------------------------------------------------- edited API documents: save() after layer edits
+EDIT_OPS = ["append", "append-two", "append-delete", "group", "group-with-layer", "move-down", "cross-move", "cross-move-pattern"]
+COLOUR_CHANNELS = {1: 1, 3: 3, 4: 4, 8: 1, 9: 3, 2: 1, 7: 3, 0: 1}   # ColorMode -> colour channels (GRAYSCALE 1, RGB 3, CMYK 4, ...)
+
+
+def edited_scenarios(thorough):
+    """deterministic list of scenarios: base document x edit x document-level blocks x merged-image compression"""
+    out = []
+    bases = [("new", m) for m in ("L", "LA", "RGB", "RGBA")]
+    sizes = [(5, 4), (1, 1), (8, 8)] if thorough else [(5, 4)]
+    k = 0
+    for base in bases:
+        for size in sizes:
+            for op in EDIT_OPS:
+                for blocks in (False, True):
+                    comps = (0, 1, 2, 3) if (thorough or base[1] in ("LA", "RGBA")) else ((k % 4),)
+                    for comp in comps:
+                        if not thorough and base[1] in ("LA", "RGBA") and op not in ("append", "group", "cross-move-pattern") and comp not in (0, 1):
+                            continue
+                        out.append({"base": "new", "mode": base[1], "size": list(size), "op": op, "blocks": blocks, "comp": comp})
+                        k += 1
+    small = ["2layers.psd", "transparentbg-gimp.psd", "1layer.psd", "group.psd", "layer_mask_data.psd", "gray0.psd", "clipping-mask2.psd",
+             "hidden-layer.psd", "empty-layer.psd", "layer_params.psd"]
+    for i, name in enumerate(small if thorough else small[:6]):
+        for j, op in enumerate(EDIT_OPS if thorough else [EDIT_OPS[(i + t) % len(EDIT_OPS)] for t in (0, 3)]):
+            out.append({"base": "fixture", "fixture": name, "op": op, "blocks": bool((i + j) % 2), "comp": None})
+    return out
+
+
+def build_edited(sc):
+    """-> (PSDImage after the edit, facts about the document before save)"""
+    from PIL import Image
+    from psd_tools import PSDImage
+    from psd_tools.api.layers import Group, PixelLayer
+    from psd_tools.constants import Compression, Tag
+    from psd_tools.psd.patterns import Patterns
+
+    if sc["base"] == "new":
+        psd = PSDImage.new(sc["mode"], tuple(sc["size"]), color=40, compression=Compression(sc["comp"]))
+    else:
+        psd = PSDImage.open(os.path.join(c01.FIXTURES, sc["fixture"]))
+    w, h = psd.width, psd.height
+    lm = {1: "LA", 3: "RGBA"}.get(COLOUR_CHANNELS.get(int(psd.color_mode), 0), "RGBA")
+
+    def pix(seed, top=0, left=0, ww=None, hh=None):
+        ww, hh = ww or max(1, w - left), hh or max(1, h - top)
+        im = Image.new(lm, (ww, hh))
+        im.putdata([tuple(((x * 37 + seed * 11 + c * 5) % 256) for c in range(len(lm))) for x in range(ww * hh)])
+        return PixelLayer.frompil(im, psd, "px%d" % seed, top, left, Compression.RLE)
+
+    op = sc["op"]
+    if op == "append":
+        psd.append(pix(1))
+    elif op == "append-two":
+        psd.append(pix(2))
+        psd.append(pix(3, min(1, h - 1), min(1, w - 1)))
+    elif op == "append-delete":
+        psd.append(pix(4))
+        l = pix(5)
+        psd.append(l)
+        psd.remove(l)
+    elif op == "group":
+        psd.append(Group.new("g"))
+    elif op == "group-with-layer":
+        g = Group.new("g")
+        psd.append(g)
+        g.append(pix(6))
+    elif op == "move-down":
+        psd.append(pix(7))
+        psd.append(pix(8))
+        psd[len(psd) - 1].move_down()
+    elif op in ("cross-move", "cross-move-pattern"):
+        if op == "cross-move-pattern":
+            src = PSDImage.open(os.path.join(c01.FIXTURES, "patterns.psd"))
+            cand = [l for l in src.descendants() if l.name == "Rectangle 1 copy 6"]
+        else:
+            src = PSDImage.open(os.path.join(c01.FIXTURES, "2layers.psd"))
+            cand = [l for l in src.descendants() if l.kind == "pixel"]
+        psd.append(cand[0])
+    if sc["blocks"]:
+        psd.tagged_blocks.set_data(Tag.PATTERNS1, Patterns())
+    hd = psd._record.header
+    cc = COLOUR_CHANNELS.get(int(hd.color_mode), 0)
+    facts = {"color_mode": int(hd.color_mode), "channels": hd.channels, "depth": hd.depth, "version": hd.version,
+             "has_alpha": hd.channels == cc + 1, "width": hd.width, "height": hd.height,
+             "merged_compression": int(psd._record.image_data.compression)}
+    return psd, facts
+
+
+def _unpackbits(row):
+    out = bytearray()
+    i = 0
+    while i < len(row):
+        n = row[i]
+        i += 1
+        if n < 128:
+            out += row[i:i + n + 1]
+            i += n + 1
+        elif n > 128:
+            out += row[i:i + 1] * (257 - n)
+            i += 1
+    return bytes(out)
+
+
+def image_data_against_header(b):
+    """size the image data section from the header alone (as a reader must): channels x height rows of ceil(width*depth/8)
+    bytes.  -> None, or what is wrong.  Independent of the library: navigates by the four section lengths."""
+    import struct
+    import zlib
+
+    sig, version, channels, height, width, depth, mode = struct.unpack(">4sH6xHIIHH", b[:26])
+    p = 26
+    for _ in range(2):
+        (n,) = struct.unpack(">I", b[p:p + 4])
+        p += 4 + n
+    lw = 4 if version == 1 else 8
+    n = int.from_bytes(b[p:p + lw], "big")
+    p += lw + n
+    if p + 2 > len(b):
+        return "sections run past the end of the file (image data starts at %d, file has %d bytes)" % (p, len(b))
+    (comp,) = struct.unpack(">H", b[p:p + 2])
+    body = b[p + 2:]
+    row = (width * depth + 7) // 8
+    rows = channels * height
+    if comp == 0:
+        if len(body) != rows * row:
+            return "raw image data holds %d bytes, the header (%d channels x %d x %d, depth %d) prescribes %d" % (
+                len(body), channels, height, width, depth, rows * row)
+    elif comp == 1:
+        cw = 2 if version == 1 else 4
+        if len(body) < rows * cw:
+            return "RLE row table shorter than %d rows" % rows
+        lens = [int.from_bytes(body[i * cw:(i + 1) * cw], "big") for i in range(rows)]
+        q = rows * cw
+        if q + sum(lens) != len(body):
+            return "RLE rows sum to %d bytes, the section holds %d" % (sum(lens), len(body) - q)
+        for i, ln in enumerate(lens):
+            got = len(_unpackbits(body[q:q + ln]))
+            q += ln
+            if got != row:
+                return "RLE row %d of %d (plane %d) unpacks to %d bytes, the header prescribes %d" % (i, rows, i // max(height, 1), got, row)
+    else:
+        try:
+            raw = zlib.decompress(body)
+        except Exception as e:
+            return "zip image data does not inflate: %r" % e
+        if len(raw) != rows * row:
+            return "zip image data inflates to %d bytes, the header prescribes %d" % (len(raw), rows * row)
+    return None
+
+
+def edited_known_class(facts):
+    """the classes in which the UNCHANGED tree writes an inconsistent merged image after an edit (findings of C17)"""
+    if facts["color_mode"] == 4:
+        return "F-C03-2"          # CMYK: F-C17-2
+    if facts["depth"] != 8:
+        return "F-C03-3"          # 16 / 32 bit: F-C17-3
+    if not facts["has_alpha"]:
+        return "F-C03-1"          # no alpha channel in the header: F-C17-1
+    return None
+
+
+def run_edited(sc):
+    """-> (kind of failure or None, detail, facts, bytes)"""
+    import warnings
+
+    with warnings.catch_warnings():
+        warnings.simplefilter("ignore")
+        try:
+            psd, facts = build_edited(sc)
+        except Exception as e:
+            return "build", repr(e), None, None
+        f = io.BytesIO()
+        try:
+            psd.save(f)
+        except Exception as e:
+            return "edited-api-save-raises", repr(e), facts, None
+    b = f.getvalue()
+    wo, info = walk_out(b, check_rle=True)
+    if wo == [1]:
+        return "edited-api-walker-rejects", info, facts, b
+    why = image_data_against_header(b)
+    if why is not None:
+        return "edited-api-image-data-vs-header", why, facts, b
+    if sc["blocks"]:
+        keys = [x for x in info if x[0] == F.K_GTB]
+        if not keys:
+            return "edited-api-walker-rejects", "the document-level tagged block set before save() was not reached by the walker", facts, b
+    return None, None, facts, b
+
+
+def edited_api_docs(ck, thorough, wcases):
+    for sc in edited_scenarios(thorough):
+        kind, detail, facts, b = run_edited(sc)
+        if kind == "build":
+            ck.count("edited-api:not-built")
+            continue
+        ck.count("edited-api:%s:%s" % (sc.get("mode") or "fixture", sc["op"]))
+        if b is not None:
+            ck.nontriv(("edited", h63_list(0, list(b))))
+            if kind is None and len(b) < 60000 and len(wcases) < 4000:
+                wo, _ = walk_out(b)
+                wcases.append((b, wo))
+        if kind is None:
+            ck.count("edited-api:consistent")
+            continue
+        known = edited_known_class(facts)
+        if kind == "edited-api-save-raises" and (known is not None or sc["base"] != "new"):
+            # no file is written: whether save() may raise here is C09's / C17's business (CMYK, deep, ICC profile, ...)
+            ck.count("edited-api:save-raises:" + (known or "fixture"))
+            continue
+        ck.fail(kind, {"scenario": sc, "facts": facts}, detail, "a file that a reader navigating by the length fields and the header can walk")
+
+
+def _cls_edited(fid):
+    def f(fl):
+        inp = fl.get("input")
+        return fl["kind"].startswith("edited-api-") and isinstance(inp, dict) and inp.get("facts") is not None and \
+            fl["kind"] in ("edited-api-image-data-vs-header", "edited-api-save-raises") and edited_known_class(inp["facts"]) == fid
+    return f
+
+
+def _w_edited(sc):
+    def w():
+        kind, detail, facts, b = run_edited(sc)
+        return kind is not None
+    return w
+
+
+for _fid in ("F-C03-1", "F-C03-2", "F-C03-3"):
+    core.KNOWN_CLASSIFIERS[_fid] = _cls_edited(_fid)
+core.KNOWN_WITNESS["F-C03-1"] = _w_edited({"base": "new", "mode": "RGB", "size": [4, 3], "op": "append", "blocks": False, "comp": 0})
+core.KNOWN_WITNESS["F-C03-2"] = _w_edited({"base": "new", "mode": "CMYK", "size": [4, 3], "op": "group", "blocks": False, "comp": 0})
+
+
 def replay(path):
     F.quiet()
     fl = json.load(open(path))
@@ -350,6 +588,17 @@ def replay(path):
             except F.WalkError as e:
                 print("independent walker: FAILS:", e)
         print("in scope:", c01.in_scope(case))
+    elif isinstance(fl.get("input"), dict) and "scenario" in fl["input"]:
+        sc = fl["input"]["scenario"]
+        print("scenario:", json.dumps(sc))
+        kind, detail, facts, b = run_edited(sc)
+        print("document before save:", facts)
+        print("save():", "raised " + str(detail) if kind == "edited-api-save-raises" else "%d bytes" % len(b))
+        if b is not None:
+            wo, info = walk_out(b, check_rle=True)
+            print("independent walker:", "FAILS: %s" % info if wo == [1] else "ok, %d blocks" % len(info))
+            print("image data against the header:", image_data_against_header(b) or "ok")
+        print("result:", kind or "consistent", "| known class (findings of C17 seen by the walker):", edited_known_class(facts) if facts else None)
     else:
         print("input:", json.dumps(fl["input"])[:1500])
     return 1
